@@ -12,6 +12,7 @@ from ..dataflow import Atom, flow_of
 from ..program import AnalysisError, FunctionInfo, dotted, norm, own_nodes
 from ..report import RuleResult
 from . import memo
+from ..shape import facts_at
 
 MUTATING_METHODS = {"update", "pop", "popitem", "clear", "setdefault", "append", "extend", "remove", "sort", "insert", "add",
                     "discard", "reverse", "__setitem__", "__delitem__"}
@@ -787,6 +788,17 @@ def rule_triple(ctx: Ctx) -> RuleResult:
             ok = False
             stray = [norm(x.value)[:40] if x.value is not None else x.kind for x in list(set(dS) - explained_S) + list(set(dT) - explained_T)]
             why.append(f"string / type can also come from {stray}, unrelated to the call that produced the fields")
+        # a type that is known beforehand (forced, or found for a path) needs fields: the resolve-back / path resolve can
+        # come out empty, and a Sid with a type but no fields is neither typed nor untyped
+        forced_kind = any(k.startswith("string = dict_to_sid(data, T)") or k.startswith("(type, fields) = path_to_dict") for k in kinds)
+        if ok and forced_kind:
+            facts = facts_at(ctx, f, node)
+            if (F.id, True) not in facts:
+                ok = False
+                why.append(f"`{F.id}` can be empty here while the type is set: the emptiness test of the resolved fields is missing")
+            elif any(k.startswith("(type, fields) = path_to_dict") for k in kinds) and (S.id, True) not in facts:
+                ok = False
+                why.append(f"`{S.id}` can be empty here: the formatted string is not tested")
         if ok and kinds:
             res.ok(site, "; or ".join(dict.fromkeys(kinds)))
         else:
